@@ -636,3 +636,139 @@ Section Uniform.
           exfalso. assert (X : existsb has_optional_fld cfs = true) by (apply existsb_exists; now exists g). congruence.
         * intros D' HD'. destruct (CI D' HD') as [vals [-> WA]]. exact (attr_member cn cfs vals g WA ND Hg).
   Qed.
+
+  Definition leaf_not_dealt (g : fld) : bool :=
+    match g with FLeaf _ t d _ => negb (dealt_shape k t d) | FNest _ _ _ _ _ => true end.
+
+  (* no destination was given a default instance: every destination gets the constructor's value *)
+  Lemma uni_fld_construct g :
+    wf_fld g = true -> has_optional_fld g = false -> pk_repaired chain || leaf_not_dealt g = true ->
+    uni_fld order_std chain k i [] g = Ok (construct_fld g).
+  Proof.
+    destruct g as [n t d fac|n opt cn cfs nd]; intros W O ND.
+    - cbn [uni_fld construct_fld]. unfold uni_leaf.
+      assert (R : raw_default order_std None [] n d fac = (d, true)) by (destruct fac; reflexivity). rewrite R.
+      cbn [wf_fld] in W. apply andb_true_iff in W as [C T].
+      destruct (is_VNone d) eqn:EN.
+      + destruct d; try discriminate. unfold package. rewrite (leb_k_1 k Hk). cbn [is_VNone orb].
+        rewrite (duplicate_none t k Hk), (nth_repeat_lt VNone VNone k i Hi). now rewrite (postprocess_default_id t VNone C T).
+      + assert (NN : d <> VNone) by (intros ->; discriminate).
+        rewrite (package_single chain t k d Hchain Hk T NN ND), (leb_k_1 k Hk).
+        rewrite (duplicate_list t k _ Hk (repeat_length d k)), (nth_repeat_lt d VNone k i Hi).
+        now rewrite (postprocess_default_id t d C T).
+    - destruct (wf_fld_nest _ _ _ _ _ W) as [Wc [NDn Wd]].
+      cbn [has_optional_fld] in O. apply orb_false_iff in O as [-> Oc]. cbn [uni_fld construct_fld].
+      assert (DV : exists vals, default_value cn cfs nd = VD cn vals /\ wf_attrs cfs vals = true
+                                /\ match nd with DFac => VD cn (map construct_fld cfs) | DNone => vnone | DInst i0 => i0 end = VD cn vals).
+      { destruct nd as [| |i0].
+        - exists (construct_fields cfs). repeat split; auto. now apply construct_wf_attrs.
+        - discriminate.
+        - unfold wf_inst in Wd. destruct i0 as [v|c vals]; [discriminate|]. apply andb_true_iff in Wd as [Ec WA].
+          apply String.eqb_eq in Ec. subst c. exists vals. auto. }
+      destruct DV as [vals [E [WA E2]]]. rewrite E, E2.
+      set (cdefs := repeat (VD cn vals) k).
+      assert (CF : Forall is_inst cdefs).
+      { apply Forall_forall. intros D HD. apply repeat_spec in HD. subst D. now exists cn, vals. }
+      rewrite (map_res_ok _ (fun g => (fname g, attr (nth i cdefs vnone) (fname g)))).
+      + unfold cdefs. rewrite (nth_repeat_lt _ vnone k i Hi), (attrs_rebuild cn cfs vals WA NDn). reflexivity.
+      + intros g Hg. apply uni_fld_inst; auto.
+        * unfold cdefs. apply repeat_length.
+        * rewrite forallb_forall in Wc. now apply Wc.
+        * cbn [has_optional] in *. destruct (has_optional_fld g) eqn:Og; [|reflexivity].
+          exfalso. assert (X : existsb has_optional_fld cfs = true) by (apply existsb_exists; now exists g). congruence.
+        * intros D HD. apply repeat_spec in HD. subst D. exact (attr_member cn cfs vals g WA NDn Hg).
+  Qed.
+End Uniform.
+
+Lemma all_some_spec (l : list (option vt)) :
+  (forall o, In o l -> is_some o = true) ->
+  exists ds, all_some l = Some ds /\ List.length ds = List.length l
+             /\ (forall j D, nth_error l j = Some (Some D) -> nth j ds vnone = D)
+             /\ (forall D, In D ds -> In (Some D) l).
+Proof.
+  induction l as [|o r IH]; intros H.
+  - exists []. repeat split; auto. intros [|j] D E; discriminate.
+  - destruct o as [D0|]; [|specialize (H None (or_introl eq_refl)); discriminate].
+    destruct IH as [ds [E [L [N I]]]]; [intros; apply H; now right|].
+    exists (D0 :: ds). cbn [all_some]. rewrite E. repeat split; cbn; auto.
+    + intros [|j] D Ej; cbn in Ej; [now injection Ej | now apply N].
+    + intros D [->|HD]; [now left | right; now apply I].
+Qed.
+
+Lemma uniform_go_ok chain k c defs : forall l i,
+  (forall j d ce De, nth_error l j = Some (d, ce, De) ->
+     exists fs, uni_fields order_std chain k (i + j) (snd c) defs = Ok fs
+                /\ VD (fst c) fs = match De with Some D => D | None => construct ce end) ->
+  uniform_go order_std chain k c defs i l = Ok (spec_C01 l).
+Proof.
+  induction l as [|[[d ce] De] r IH]; intros i H; [reflexivity|].
+  cbn [uniform_go]. destruct (H 0 d ce De eq_refl) as [fs [E1 E2]]. rewrite Nat.add_0_r in E1. rewrite E1.
+  rewrite (IH (S i)).
+  - unfold spec_C01. cbn [map]. now rewrite E2.
+  - intros j d' ce' De' Ej. replace (S i + j) with (i + S j) by lia. exact (H (S j) d' ce' De' Ej).
+Qed.
+
+Theorem parse_uniform_meets chain c e0 e1 r :
+  chain_known chain ->
+  let f := e0 :: e1 :: r in
+  wf_forest f = true ->
+  (forall e : entry, In e f -> snd (fst e) = c) ->
+  (forall e : entry, In e f -> is_some (snd e) = is_some (snd e0)) ->
+  has_optional (snd c) = false ->
+  no_dealt chain f = true ->
+  parse_uniform order_std chain c f = Ok (spec_C01 f).
+Proof.
+  intros Hc f W SC SD NO NDl. subst f. remember (e0 :: e1 :: r) as f eqn:Ef. unfold parse_uniform.
+  assert (Hk : 2 <= List.length f) by (rewrite Ef; cbn; lia).
+  assert (In0 : In e0 f) by (rewrite Ef; now left).
+  unfold wf_forest in W. apply andb_true_iff in W as [_ W]. rewrite forallb_forall in W.
+  assert (WC : forallb wf_fld (snd c) = true /\ NoDup (map fname (snd c))).
+  { specialize (W e0 In0). specialize (SC e0 In0). destruct e0 as [[d0 c0] D0].
+    cbn [fst snd] in SC. subst c0. unfold wf_entry in W. apply andb_true_iff in W as [W _]. unfold wf_fields in W.
+    apply andb_true_iff in W as [A B]. split; [exact A | now apply str_nodupb_NoDup]. }
+  destruct WC as [Wc NDn].
+  assert (OPT : forall g, In g (snd c) -> has_optional_fld g = false).
+  { intros g Hg. destruct (has_optional_fld g) eqn:Og; [|reflexivity]. exfalso.
+    assert (X : has_optional (snd c) = true) by (apply existsb_exists; now exists g). congruence. }
+  apply uniform_go_ok. intros j d ce De Ej. cbn [Nat.add].
+  assert (Hin : In (d, ce, De) f) by (eapply nth_error_In; exact Ej).
+  assert (Hj : j < List.length f) by (apply (proj1 (nth_error_Some f j)); intros X; generalize (eq_trans (eq_sym X) Ej); discriminate).
+  pose proof (SC _ Hin) as Ece. cbn [fst snd] in Ece. subst ce.
+  destruct (snd e0) as [D0|] eqn:E0.
+  - (* a default instance on every destination *)
+    assert (AS : forall o, In o (map (fun e : entry => snd e) f) -> is_some o = true).
+    { intros o Ho. apply in_map_iff in Ho as [e [<- He]]. rewrite (SD e He). reflexivity. }
+    destruct (all_some_spec _ AS) as [ds [EA [L [N I]]]]. unfold uniform_defaults. rewrite EA. rewrite map_length in L.
+    assert (WD : forall D, In D ds -> exists vals, D = VD (fst c) vals /\ wf_attrs (snd c) vals = true).
+    { intros D HD. apply I in HD. apply in_map_iff in HD as [[[d' c'] D'] [E' He']]. cbn [snd] in E'. subst D'.
+      pose proof (SC _ He') as Ec'. cbn [fst snd] in Ec'. subst c'. specialize (W _ He'). unfold wf_entry in W.
+      apply andb_true_iff in W as [_ W]. unfold wf_inst in W. destruct D as [v|cn vals]; [discriminate|].
+      apply andb_true_iff in W as [Ec WA]. apply String.eqb_eq in Ec. subst cn. now exists vals. }
+    assert (DeS : exists D, De = Some D).
+    { pose proof (SD _ Hin) as X. cbn [snd] in X. destruct De; [eauto | discriminate]. }
+    destruct DeS as [D ->].
+    assert (ND : nth j ds vnone = D).
+    { apply N. rewrite nth_error_map, Ej. reflexivity. }
+    assert (HD : In D ds) by (rewrite <- ND; apply nth_In; lia).
+    destruct (WD D HD) as [vals [-> WA]].
+    exists vals. split; [|reflexivity]. unfold uni_fields.
+    rewrite (map_res_ok _ (fun g => (fname g, attr (nth j ds vnone) (fname g)))).
+    + now rewrite ND, (attrs_rebuild (fst c) (snd c) vals WA NDn).
+    + intros g Hg. apply uni_fld_inst; auto.
+      * apply Forall_forall. intros D' HD'. destruct (WD D' HD') as [v' [-> _]]. now exists (fst c), v'.
+      * rewrite forallb_forall in Wc. now apply Wc.
+      * intros D' HD'. destruct (WD D' HD') as [v' [-> WA']]. exact (attr_member (fst c) (snd c) v' g WA' NDn Hg).
+  - (* no default instance anywhere *)
+    assert (DeN : De = None).
+    { pose proof (SD _ Hin) as X. cbn [snd] in X. destruct De; [discriminate | reflexivity]. }
+    subst De.
+    assert (UD : uniform_defaults f = []).
+    { unfold uniform_defaults. rewrite Ef. cbn [map]. rewrite E0. reflexivity. }
+    rewrite UD. exists (construct_fields (snd c)). split; [|reflexivity]. unfold uni_fields, construct_fields.
+    apply map_res_ok. intros g Hg. apply uni_fld_construct; auto.
+    + rewrite forallb_forall in Wc. now apply Wc.
+    + unfold no_dealt in NDl. destruct (pk_repaired chain); [reflexivity|]. cbn [orb] in *.
+      pose proof (SC _ In0) as X. rewrite Ef in NDl. rewrite <- Ef in NDl at 1.
+      destruct e0 as [[d0 c0] D0]. cbn [snd] in E0. subst D0. cbn [fst snd] in X. subst c0.
+      rewrite forallb_forall in NDl. specialize (NDl g Hg). destruct g; [exact NDl | reflexivity].
+Qed.
